@@ -81,20 +81,22 @@ def minList : List Nat → Nat
   | [x] => x
   | x :: xs => min x (minList xs)
 
-/-- a lower bound of the encoded length (header included) of any well-formed value of `c`, by decoder groups:
-optional groups 0, choice groups the smallest member, other groups every member once -/
+/-- lower bound of what one decoder group contributes: optional groups 0, choice groups the smallest member, other
+groups every member once -/
+def lowerGroup (S : Schema) (sz : Container → Nat) (g : List Slot) : Nat :=
+  match g with
+  | [] => 0
+  | s :: _ =>
+    let sizes := (groupParams S g).map sz
+    if s.optional then 0
+    else if groupKind g == .choice then minList sizes
+    else sizes.sum
+
+/-- a lower bound of the encoded length (header included) of any well-formed value of `c`, by decoder groups -/
 def lowerF (S : Schema) : Nat → Container → Nat
   | 0, c => c.headerSize + (c.fields.map (·.kind.minSize)).sum
   | k+1, c =>
-    c.headerSize + (c.fields.map (·.kind.minSize)).sum +
-      (c.groups.map fun g =>
-        match g with
-        | [] => 0
-        | s :: _ =>
-          let sizes := (groupParams S g).map (lowerF S k)
-          if s.optional then 0
-          else if groupKind g == .choice then minList sizes
-          else sizes.sum).sum
+    c.headerSize + (c.fields.map (·.kind.minSize)).sum + (c.groups.map (lowerGroup S (lowerF S k))).sum
 
 def lower (S : Schema) (c : Container) : Nat := lowerF S S.fuel c
 
